@@ -147,6 +147,9 @@ def run(check: Check) -> None:
 
     no_inplace_on_handed_values(check, [f"{c.name}.compute" for c in check.program.subclasses("Norm") if "compute" in c.methods])  # H10: no out= / copy=False / in-place method
     memoisation_rule(check)  # H8: no cached storage or results behind a kernel
+    from .common import scalar_is_base_array
+
+    scalar_is_base_array(check)  # the coercion every kernel starts with yields plain arrays
     from ..ordertype import describe, flatten, spec_term
 
     p = check.program
